@@ -59,6 +59,14 @@ ADVISORY = {
     'C17.R8': 'only when the bias function is not recognisable -> bias law on values C04.R14 / R15',
     'C04.R4b': 'same as C17.R8',
     'C18.R1': 'only when compare_model is not recognisable -> validation simulation C18.R9',
+    'C18.R3': 'same as C18.R1',
+    'C09.R4': 'min / max key spelling -> calibration simulation C09.R11',
+    'C03.R2': 'dtype filter halves as text -> operand selection table (C03.R2 value part), operator sweep (int32 operands untouched)',
+    'C19.R5': 'GraphInfo construction spelling -> C19.R13 independence through the whole pipeline',
+    'C10.R3': 'subgraph index spelling -> signature -> subgraph table C10.R9',
+    'C09.R2': 'fold keys as text -> calibration simulation C09.R11 (moving average, exact)',
+    'C15.R1': 'group scan spelling -> sharing simulation C15.R8, tied constants C15.R10',
+    'C01.R9': 'same as C15.R1',
 }
 
 
@@ -110,7 +118,14 @@ ADVISORY_OBLIGATIONS = {
     'C18.R7': ['*'],
     'C19.R1': ['tensor id and producer of an instruction must come from'],
     # no advisory obligation, but "cannot recognise the function" (an AnalysisError / a lost subject of these rules) is a note
-    'C17.R8': [], 'C04.R4b': [], 'C18.R1': [], 'C18.R3': [],
+    'C17.R8': [], 'C04.R4b': [], 'C18.R1': [], 'C18.R3': [], 'C09.R4': [],
+    # third set of refactorings (r16: C04, C09, C13, C15 files)
+    'C03.R2': ['the input and output halves of the dtype filter differ'],
+    'C19.R5': ['GraphInfo must pair the loop subgraph'],
+    'C10.R3': ['calibrate() no longer derives the subgraph index from the signature'],
+    'C09.R2': ['the min statistic is not updated', 'the max statistic is not updated'],
+    'C15.R1': ['the predicate must compare the recorded results of the first sharer', 'only groups with a single entry may be skipped'],
+    'C01.R9': ['the predicate must compare the recorded results of the first sharer', 'only groups with a single entry may be skipped'],
 }
 
 
